@@ -382,7 +382,33 @@ package plush
 //@ errprop
 //@ assigns c.ctx, c.curStmt, mapsof("map[string]interface{}"), fresh
 
+// ---- C08: every element once, in order; break/continue keep what the iteration produced ------------
+// resval: what an iteration contributes to the loop's result (continue/break objects carry it)
+//@ spec resval(r any) any = ite(is(r, "continueObject"), box(unbox(r, "continueObject").Value), ite(is(r, "breakObject"), box(unbox(r, "breakObject").Value), r))
+//@ pred kept(r any, ret []interface{}, pret []interface{}) = (resval(r) == nil ==> ret == pret) &&
+//@     (resval(r) != nil ==> len(ret) == len(pret) + 1 && ret[len(pret)] == resval(r) && (forall j int :: 0 <= j && j < len(pret) ==> ret[j] == pret[j]))
+
 //@ func (c *compiler) evalForExpression
+//@ ghost itv = callresult after evalExpression#1
+//@ ghost lastres = callresult after evalBlockStatement#1
+// slices and arrays: iteration number n binds key n and element n, then runs the body once
+//@ loop 3: invariant visited: calls(evalBlockStatement) == i && i <= rvLen(riter) && riter == indirect(rvOf(itv))
+//@ assert bindslice: (rvKind(riter) == 23 || rvKind(riter) == 17) ==> view(unbox(c.ctx, "*Context"), box(node.ValueName)) == rvIface(rvIndex(riter, i)) && (node.KeyName != node.ValueName ==> view(unbox(c.ctx, "*Context"), box(node.KeyName)) == box(i)) before evalBlockStatement#1
+//@ loop 3: invariant kept: calls(evalBlockStatement) == prev(calls(evalBlockStatement)) + 1 ==> kept(lastres, ret, prev(ret))
+//@ ensures sliceall: err == nil && itv != nil && (rvKind(indirect(rvOf(itv))) == 23 || rvKind(indirect(rvOf(itv))) == 17) && !breakLoop ==> calls(evalBlockStatement) == rvLen(indirect(rvOf(itv)))
+// iterators: pulled until exhausted, key = running count
+//@ loop 4: invariant pulled: calls(Next) == calls(evalBlockStatement) + 1 && i__3 == calls(evalBlockStatement)
+//@ assert binditer: view(unbox(c.ctx, "*Context"), box(node.ValueName)) == ii && ii != nil && (node.KeyName != node.ValueName ==> view(unbox(c.ctx, "*Context"), box(node.KeyName)) == box(i__3)) before evalBlockStatement#1
+//@ loop 4: invariant kept: calls(evalBlockStatement) == prev(calls(evalBlockStatement)) + 1 ==> kept(lastres, ret, prev(ret))
+// maps: the entry bound is the entry of the key at hand
+//@ assert bindmap: view(unbox(c.ctx, "*Context"), box(node.ValueName)) == rvIface(rvMapIndex(riter, keys[i__1])) && (node.KeyName != node.ValueName ==> view(unbox(c.ctx, "*Context"), box(node.KeyName)) == rvIface(keys[i__1])) before evalBlockStatement#1
+//@ loop 2: invariant kept: calls(evalBlockStatement) == prev(calls(evalBlockStatement)) + 1 ==> kept(lastres, ret, prev(ret))
+// break: what the breaking iteration produced is kept and the loop ends; an error discards everything
+//@ loop 2: invariant nobreak: !breakLoop__1
+//@ loop 3: invariant nobreak: !breakLoop__2
+//@ loop 4: invariant nobreak: !breakLoop__3
+//@ ensures keptbreak: err == nil && breakLoop ==> is(lastres, "breakObject") && is(result, "[]interface {}") && kept(lastres, unbox(result, "[]interface {}"), prev(ret))
+//@ ensures nilnothing: err == nil && itv == nil ==> calls(evalBlockStatement) == 0 && result == nil
 //@ loop 1: invariant cctx(c) && octx == unbox(old(c.ctx), "*Context")
 //@ loop 2: invariant cctx(c) && octx == unbox(old(c.ctx), "*Context") && 0 <= i && rvKind(riter) == 21 && rvCanIface(riter)
 //@ loop 2: invariant keysok: forall j int :: 0 <= j && j < len(keys) ==> rvValid(keys[j]) && rvCanIface(keys[j]) && rvType(keys[j]) == tkey(rvType(riter))
